@@ -405,6 +405,7 @@ def check(prop, tier):
         property_id=prop, tier=tier, seed=base_seed, level=spec["level"], wall_s=round(wall, 2), violations=n_viol,
         coverage=dict(
             evaluations=runs,
+            known_findings_reported=[l.split(" (replay=")[0] for l in lines_out if l.startswith("KNOWN-FINDING")],
             distinct_nontrivial=len(distinct),
             rule=spec["rule"],
             samples=samples,
